@@ -44,6 +44,9 @@ func canCarry(c string, op Op) bool {
 	if c == cPostGraphQL {
 		return op.Vars == nil && op.OpName == ""
 	}
+	if c == cGet {
+		return getCanCarry(op)
+	}
 	return true
 }
 
@@ -459,7 +462,7 @@ func (w *world) direct(query, opName string, vars, exts map[string]interface{}, 
 			w.takeLogs()
 		}
 	}()
-	ctx := baseContext(context.Background(), feats)
+	ctx := w.baseContext(context.Background(), feats)
 	var feat graphql.FeatureSet
 	if useFeaturesFn {
 		feat = featuresFromContext(ctx)
